@@ -85,6 +85,26 @@ static void run(const std::vector<std::string>& ops)
       continue;
     }
 #endif
+    // secondary access paths: iterator, const_iterator and ModifyIterator walked in lockstep (all equals() overloads, conversions,
+    // post-increment), and operator<<
+    for (int q = 0; q < 2; ++q) {
+      SL& m = L[q]; const SL& c = L[q];
+      SL::iterator it = m.begin(); SL::const_iterator cit = c.begin(); SL::ModifyIterator mit = m.beginModify();
+      int cnt = 0; bool ok = true;
+      while (cit != c.end()) {
+        if (it == m.end() || mit == m.endModify()) { ok = false; break; }
+        if (!(it == cit) || !(it == mit) || !(mit == it) || !(mit == cit) || !(mit == mit) || !(cit == SL::const_iterator(it))) ok = false;
+        if (*it != *cit || *mit != *cit || *SL::const_iterator(mit) != *cit || *SL::iterator(mit) != *cit) ok = false;
+        SL::iterator oit = it++; SL::const_iterator ocit = cit++; SL::ModifyIterator omit = mit++;
+        if (!(oit == ocit) || !(omit == ocit) || (it != m.end() && oit == it)) ok = false;
+        ++cnt;
+      }
+      if (!ok || !(it == m.end()) || !(mit == m.endModify()) || cnt != c.size()) flags += "!walk";
+      std::ostringstream os; os << c; std::vector<int> pv; std::string tok; std::istringstream is(os.str());
+      while (is >> tok) { bool num = !tok.empty(); for (char ch : tok) if (!(ch >= '0' && ch <= '9') && ch != '-') num = false; if (num) pv.push_back(std::stoi(tok)); }
+      std::vector<int> cv; for (SL::const_iterator x = c.begin(); x != c.end(); ++x) cv.push_back(*x);
+      if (pv != cv) flags += "!print";
+    }
     // mutable iteration sees the same as const iteration
     for (int q = 0; q < 2; ++q) {
       std::vector<int> a, b;
